@@ -67,7 +67,7 @@ def check(model: Model, run: Run) -> None:
     est = model.func(PEER + '._establish')
     run.analysed(est)
     cons = model.calls_to(est.module, est.node, 'ReceiveTimer')
-    okc = bool(cons) and len(cons[0].args) >= 4 and (dotted(cons[0].args[1]) or '').endswith('negotiated.holdtime') and folder.fold(cons[0].args[2], est.module, est.cls) == 4 and folder.fold(cons[0].args[3], est.module, est.cls) == 0
+    okc = bool(cons) and len(cons[0].args) >= 4 and Loc(model, est).expand(cons[0].args[1]).endswith('negotiated.holdtime') and folder.fold(cons[0].args[2], est.module, est.cls) == 4 and folder.fold(cons[0].args[3], est.module, est.cls) == 0
     run.check(okc, est.qualname, 'ReceiveTimer(session, negotiated.holdtime, 4, 0)', est.loc(cons[0]) if cons else est.loc(), 'the receive timer must use the negotiated hold time and 4/0')
 
     # ------------------------------------------------------------------ R2 send timer
